@@ -237,6 +237,9 @@ class Exec:
         self.obligations = []
         self.cur_func = None
         self.depth = 0
+        # constructs modelled by an unconstrained value: kind -> names of
+        # the solver constants that stand for such values
+        self.imprecise = {}
         self.inlined = set()
         self.assumed_calls = set()
         self.used_assumptions = set()
@@ -306,6 +309,11 @@ class Exec:
                                                'proof', line, self.cur_func,
                                                note))
 
+    def note_imprecise(self, kind, *values):
+        names = self.imprecise.setdefault(kind, set())
+        for v in values:
+            names |= sym.const_names(v)
+
     def canary(self, st, name, line=0):
         full = '%s:canary:%s' % (self.cur_func, name)
         self.obligations.append(Obligation(full, st.pc, z3.BoolVal(False),
@@ -316,7 +324,12 @@ class Exec:
         """generate the obligations of one function against its contract"""
         # `qual#variant`: a second contract of the same function (e.g. the
         # multi-language mode of tex2txt)
-        fi = self.repo.funcs[qual.split('#')[0]]
+        fi = self.repo.funcs.get(qual.split('#')[0])
+        if fi is None:
+            # renamed / removed / merged into another function: the contract
+            # has nothing to be checked against -- undecided, not an error
+            raise Unsupported('function %s under contract is not in the '
+                              'source' % qual.split('#')[0])
         c = self.contracts.get(qual)
         if c is None:
             raise EngineError('no contract for ' + qual)
@@ -325,6 +338,22 @@ class Exec:
         args = c.setup(self, st)          # dict param -> value; assumes pre
         self.args0 = dict(args)
         st.env.update(args)
+        if isinstance(fi.node, ast.FunctionDef):
+            # parameters renamed in the code (and not recovered by the
+            # alpha-normalisation): contract names are labels, the body sees
+            # its own names, bound by position
+            an = [p.arg for p in fi.node.args.posonlyargs + fi.node.args.args]
+            cn = getattr(c, 'param_names', None) or []
+            if len(an) == len(cn) and set(an) != set(cn):
+                for a_, c_ in zip(an, cn):
+                    if a_ != c_:
+                        st.env[a_] = args[c_]
+                for c_ in cn:
+                    if c_ not in an:
+                        # a clause that reads this local by its old name
+                        # does not fit the code (undecided), it must not
+                        # see a stale value
+                        st.env.pop(c_, None)
         st.env['$args'] = dict(args)
         st.ghost['$diag'] = 0
         self.canary(st, 'pre', fi.lineno)
@@ -474,6 +503,12 @@ class Exec:
         load = _as_load(s.target)
         for st1, old in self.ev(load, st, fi):
             for st2, v in self.ev(s.value, st1, fi):
+                if isinstance(s.op, ast.Add) and (
+                        isinstance(old, TokList) or
+                        getattr(old, 'kind', None) == 'ilist'):
+                    # list += iterable extends by the elements
+                    from . import builtins as bi
+                    v = bi.iterable_as_list(self, st2, v, s.lineno)
                 if isinstance(old, TokList) and isinstance(s.op, ast.Add) \
                         and not (isinstance(v, SSeq) and not old.segs):
                     # in-place extension keeps identity
@@ -658,7 +693,8 @@ class Exec:
     def try_map_pattern(self, s, st, fi):
         """for t in L: t.a = e1; t.b = e2   (e_i do not mention t)
         is executed as an in-place map over the summarised list L."""
-        if not (isinstance(s, ast.For) and isinstance(s.target, ast.Name)):
+        if not (isinstance(s, ast.For) and isinstance(s.target, ast.Name)
+                and not s.orelse):
             return None
         t = s.target.id
         stores = []
@@ -709,9 +745,13 @@ class Exec:
         return st1
 
     def loop(self, s, st, fi, c):
-        if s.orelse:
-            raise Unsupported('loop else at %d' % s.lineno)
         ordinal = fi.loop_nodes().index(s)
+        if hasattr(s, '_ref_ordinal'):
+            # the function differs from the tree the contracts were written
+            # against: loops are identified by their header (pyvc/alpha.py),
+            # a loop that is not one of the reference has no contract
+            ordinal = s._ref_ordinal if s._ref_ordinal is not None \
+                else 'X%d' % ordinal
         spec = c.loops.get(ordinal)
         if spec is None:
             r = self.try_map_pattern(s, st, fi)
@@ -724,7 +764,8 @@ class Exec:
             # is unknown afterwards; obligations that need more fail
             spec = LoopSpec()
             self.default_loops = getattr(self, 'default_loops', 0) + 1
-        tag = 'loop%d' % ordinal
+            self.note_imprecise('loop without invariant in the contract')
+        tag = 'loop%s' % ordinal
         is_for = isinstance(s, ast.For)
         iters = [(st, None)]
         if is_for:
@@ -749,6 +790,17 @@ class Exec:
             self.havoc(h, targets, spec, s.lineno)
             if is_for:
                 it.havoc(h)
+            if isinstance(ordinal, str) or not (
+                    spec.invs or spec.shapes or spec.modifies or
+                    spec.body_post):
+                # loop cut with `true`: what it assigns is unknown afterwards
+                for n_ in targets:
+                    try:
+                        self.note_imprecise(
+                            'loop without invariant in the contract',
+                            self.lookup_path(h, n_))
+                    except (KeyError, AttributeError):
+                        pass
             self.assume_invs(spec, h)
             # 3a. exit path
             x = h.clone()
@@ -768,7 +820,12 @@ class Exec:
                 if spec.on_exit:
                     spec.on_exit(Env(x1), x1)
                 if self.feasible(x1):
-                    yield x1, None
+                    if s.orelse:
+                        # `else` of a loop: runs when the loop ends without
+                        # break
+                        yield from self.exec_block(s.orelse, x1, fi, c)
+                    else:
+                        yield x1, None
             # 3b. body path
             b = h
             b.trace.append(tag + '.body')
@@ -814,13 +871,8 @@ class Exec:
                     self.check_invs(spec, b2, tag + ':inv-preserved',
                                     s.lineno)
                     for lab, fn in spec.body_post:
-                        try:
-                            goal = fn(snap, Env(b2))
-                        except KeyError as e:
-                            raise Unsupported(
-                                'loop body contract %s refers to variable '
-                                '%s, which the code does not define' % (
-                                    lab, e))
+                        goal = sym.fit('loop body contract ' + lab,
+                                       lambda: fn(snap, Env(b2)))
                         self.prove(b2, '%s:body-ensures:%s@%s' % (
                             tag, lab, _tr(b2)), goal, s.lineno)
                     if v0 is not None:
@@ -832,14 +884,9 @@ class Exec:
     def check_invs(self, spec, st, label, line):
         E = Env(st)
         for name, fn in spec.invs:
-            try:
-                goal = fn(E)
-            except KeyError as e:
-                # the code no longer has a variable the invariant speaks
-                # about: the contract does not fit the code (undecided)
-                raise Unsupported('loop invariant %s refers to variable %s, '
-                                  'which the code does not define here'
-                                  % (name, e))
+            # a variable the invariant speaks about no longer exists / has
+            # another type: the contract does not fit the code (undecided)
+            goal = sym.fit('loop invariant ' + name, lambda: fn(E))
             self.prove(st, '%s:%s@%s' % (label, name, _tr(st)), goal, line)
         for name, sp in spec.shapes.items():
             try:
@@ -856,7 +903,7 @@ class Exec:
     def assume_invs(self, spec, st):
         E = Env(st)
         for name, fn in spec.invs:
-            st.assume(fn(E))
+            st.assume(sym.fit('loop invariant ' + name, lambda: fn(E)))
 
     def lookup_path(self, st, path):
         parts = path.split('.')
@@ -1599,8 +1646,61 @@ class Exec:
         yield from rec(0, st, [])
 
     def ev_List(self, node, st, fi):
+        if any(isinstance(e, ast.Starred) for e in node.elts):
+            # [a, *xs, b]  ==  [a] + list(xs) + [b]  (a new list)
+            yield from self._ev_star_list(node, st, fi)
+            return
         for st1, vals in self._ev_list(node.elts, st, fi, list):
             yield st1, self.make_list(vals, st1, node.lineno)
+
+    def _ev_star_list(self, node, st, fi):
+        from . import builtins as bi
+        groups, cur = [], []
+        for e in node.elts:
+            if isinstance(e, ast.Starred):
+                if cur:
+                    groups.append(('plain', cur))
+                    cur = []
+                groups.append(('star', e.value))
+            else:
+                cur.append(e)
+        if cur:
+            groups.append(('plain', cur))
+
+        def rec(i, st, acc):
+            if i == len(groups):
+                yield st, acc
+                return
+            kind, g = groups[i]
+            if kind == 'plain':
+                for st1, vals in self._ev_list(g, st, fi, list):
+                    part = self.make_list(vals, st1, node.lineno)
+                    yield from rec(i + 1, st1, self._cat(acc, part, st1,
+                                                         node.lineno))
+            else:
+                for st1, v in self.ev(g, st, fi):
+                    v = bi.iterable_as_list(self, st1, v, node.lineno)
+                    if isinstance(v, tuple):
+                        v = self.make_list(list(v), st1, node.lineno)
+                    if not isinstance(v, (TokList, SSeq)) or (
+                            isinstance(v, SSeq) and v.kind != 'ilist'):
+                        raise Unsupported('star of %r in a list display at '
+                                          '%d' % (v, node.lineno))
+                    yield from rec(i + 1, st1, self._cat(acc, v, st1,
+                                                         node.lineno))
+        yield from rec(0, st, None)
+
+    def _cat(self, acc, part, st, line):
+        if acc is None:
+            # first group: a copy (the display builds a new list)
+            if isinstance(part, TokList):
+                return TokList(list(part.segs))
+            return part
+        if isinstance(acc, TokList) and not acc.segs:
+            return self._cat(None, part, st, line)
+        if isinstance(part, TokList) and not part.segs:
+            return acc
+        return self.binop(ast.Add(), acc, part, st, line)
 
     def make_list(self, vals, st, line):
         if not vals:
